@@ -348,10 +348,113 @@ static void judge_i64(int64_t v, bool roundtrip) {
   }
 }
 
+// ---- placement: the digits a number prints as must not depend on where the output buffer lies.  Every value of a
+// family covering all formatting paths is written at each offset of a window across an internal 4 KiB page boundary of
+// a three-page block (both sides accessible) and compared with the text obtained at the start of the block.
+static vf::Counter c_place("placement:number-written-at-every-offset-across-a-page-boundary");
+static void placement_case(uint64_t i, vf::Rng& r) {
+  static char* block = nullptr;
+  if (!block && posix_memalign((void**)&block, 4096, 3 * 4096)) return;
+  bool dbl = g_prop == "C07";
+  for (int k = 0; k < 40; k++) {
+    char ref[40], got[40];
+    int rn, gn = 0;
+    uint64_t u = 0;
+    double d = 0;
+    int kind = (int)((i + k) % 3);
+    if (dbl) {
+      static const double fam[] = {0.1, -0.30000000000000004, 1e21, 6e20, 123456789012345680.0, 1.7976931348623157e308, 5e-324, -2.2250738585072014e-308, 1e-7, 123456.789,
+                                   9007199254740993.0, 4294967296.5, 1e100, -1.234567890123456e-100, 0.000001234567890123, 100000000.0, 1e16, 12345678.0};
+      d = r.below(3) ? fam[r.below(18)] : from_bits(r.next() & 0x7fefffffffffffffULL);
+      rn = internal::F64toa(block, d);
+      memcpy(ref, block, rn > 0 ? rn : 0);
+    } else {
+      int nd = (int)r.range(1, 20);
+      u = 0;
+      for (int q = 0; q < nd; q++) u = u * 10 + (q == 0 ? r.range(1, 9) : r.below(10));
+      if (r.below(5) == 0) u = r.pick(std::vector<uint64_t>{99999999ULL, 100000000ULL, 4294967296ULL, 9999999999999999ULL, 10000000000000000ULL, UINT64_MAX, (uint64_t)INT64_MAX + 1});
+      char* e = kind == 0 ? internal::U64toa(block, u) : internal::I64toa(block, kind == 1 ? (int64_t)u : -(int64_t)(u >> 1));
+      rn = (int)(e - block);
+      memcpy(ref, block, rn);
+    }
+    for (int off = 4096 - 40; off <= 4096 + 8; off++) {
+      c_place.add();
+      vf::eval();
+      char* out = block + off;
+      memset(out, '#', 34);
+      if (dbl) gn = internal::F64toa(out, d);
+      else gn = (int)((kind == 0 ? internal::U64toa(out, u) : internal::I64toa(out, kind == 1 ? (int64_t)u : -(int64_t)(u >> 1))) - out);
+      memcpy(got, out, gn > 0 && gn < 40 ? gn : 0);
+      if (gn != rn || memcmp(got, ref, rn > 0 ? rn : 0) != 0) {
+        vf::witness(std::string(ref, rn > 0 ? rn : 0));
+        vf::violation("output-depends-on-buffer-placement", "value prints as \"" + std::string(ref, rn > 0 ? rn : 0) + "\" at the start of a page and as \"" +
+                                                               vf::printable(std::string(got, gn > 0 && gn < 40 ? gn : 0)) + "\" at page offset " + std::to_string(off % 4096));
+        return;
+      }
+    }
+  }
+  vf::distinct(vf::hash_combine(i, r.s));
+}
+
+// ---- a number reached by Serialize with every remaining capacity 0..60 of a caller-sized write buffer (behind enough
+// 20-digit numbers to outgrow the serializer's up-front estimate): the reservation in front of the number formatters
+// has to cover their longest output plus the separator
+static vf::Counter c_numcap("number-reached-at-every-remaining-capacity");
+static void number_at_remaining_capacity_case(uint64_t i, vf::Rng& r) {
+  size_t m = 30 + (size_t)(i % 6) * 9;
+  su::PoolDoc d;
+  d.SetArray();
+  std::string prefix = "[";
+  for (size_t k = 0; k < m; k++) {
+    uint64_t x = UINT64_MAX - k;
+    d.PushBack(su::PoolNode(x), d.GetAllocator());
+    prefix += std::to_string(x) + ",";
+  }
+  static const double dbls[] = {-0.0000012345678901234567, -1.7976931348623157e308, -2.2250738585072014e-308, 0.1, -123456789012345680000.0, 5e-324, -0.000001234567890123456};
+  for (int v = 0; v < 10; v++) {
+    std::string text;
+    char b[40];
+    if (v < 7) {
+      double x = dbls[v];
+      d.PushBack(su::PoolNode(x), d.GetAllocator());
+      int n = internal::F64toa(b, x);
+      text.assign(b, n);
+    } else if (v == 7) {
+      d.PushBack(su::PoolNode((uint64_t)UINT64_MAX), d.GetAllocator());
+      text = "18446744073709551615";
+    } else if (v == 8) {
+      d.PushBack(su::PoolNode((int64_t)INT64_MIN), d.GetAllocator());
+      text = "-9223372036854775808";
+    } else {
+      d.PushBack(su::PoolNode((int64_t)-1), d.GetAllocator());
+      text = "-1";
+    }
+    std::string expect = prefix + text + "]";
+    for (size_t rem = 0; rem <= 60; rem++) {
+      c_numcap.add();
+      vf::eval();
+      WriteBuffer wb(prefix.size() + rem);
+      vf::note("Serialize([numbers..., number]) into a sized WriteBuffer");
+      SonicError e = d.Serialize(wb);
+      std::string out(wb.ToString(), wb.Size());
+      if (e != kErrorNone || out != expect) {
+        vf::violation("number-at-remaining-capacity", "remaining " + std::to_string(rem) + ": ..." + vf::printable(out.substr(out.size() > 60 ? out.size() - 60 : 0)) + " expected ..." + text + "]");
+        return;
+      }
+    }
+    d.PopBack();
+  }
+  vf::witness("[" + std::to_string(m) + " x 20-digit number, number of every kind] into WriteBuffer(prefix+0..60)");
+  vf::distinct_enum(10 * 61);
+  (void)r;
+}
+
 int main(int argc, char** argv) {
   for (int i = 1; i + 1 < argc; i++)
     if (std::string(argv[i]) == "--prop") g_prop = argv[i + 1];
   std::vector<vf::Stream> S;
+  S.push_back({"placement_across_a_page_boundary", 60, 2000, placement_case});
+  S.push_back({"number_at_every_remaining_capacity", 6, 6, number_at_remaining_capacity_case, false});
   if (g_prop == "C07") {
     S.push_back({"table_audit", 1, 1, [](uint64_t, vf::Rng&) { audit_pow10ceil(); }, false});
     // all 2046 biased exponents (and 0 = subnormals) x 14 significands
